@@ -40,7 +40,7 @@ SHARD_TIMEOUT = {'quick': 300, 'thorough': 1500}
 SIZES = {
     # tier: (random programs per shard, data sets, max depth, programs per data set in the exhaustive part)
     'quick': dict(random=3000, datasets=10, depth=4),
-    'thorough': dict(random=5000, datasets=25, depth=5),
+    'thorough': dict(random=4000, datasets=20, depth=5),
 }
 
 
